@@ -149,10 +149,17 @@ impl Flow {
                         .and_then(|c| c.get(choice.original_thread_index.borrow().to_string()))
                         .and_then(|t| t.as_object())
                         .ok_or(StoryError::BadJson("loading choice threads".to_owned()))?;
-                    choice.set_thread_at_generation(Thread::from_json(
-                        &main_content_container,
-                        j_saved_choice_thread,
-                    )?);
+                    let thread = Thread::from_json(&main_content_container, j_saved_choice_thread)?;
+
+                    // Choosing the choice makes this thread the current one,
+                    // and a current thread always has a current element.
+                    if thread.callstack.is_empty() {
+                        return Err(StoryError::BadJson(
+                            "loading choice threads: empty call stack".to_owned(),
+                        ));
+                    }
+
+                    choice.set_thread_at_generation(thread);
                 }
             }
         }
